@@ -505,6 +505,20 @@ func runDeliver(e *env) {
 		gs, ps := &recSigner{}, &recSigner{}
 		tp := e.newTransport(cl, gs, ps)
 		to := fmt.Sprintf("https://%s/inbox/%d", []string{"remote.example:8443", "remote.example", "remote.example:443", "[2001:db8::1]:8443", "[::1]", "xn--bcher-kva.example"}[st%6], st)
+		// payload shapes: any byte string is a payload, the empty one included
+		payload := payload
+		switch (st / 6) % 7 {
+		case 1:
+			payload = []byte{}
+		case 2:
+			payload = nil
+		case 3:
+			payload = []byte("x")
+		case 4:
+			payload = []byte("not json at all \x00\xff\r\n")
+		case 5:
+			payload = []byte(`{"type":"Note","content":"héllo 世界 😀"}`)
+		}
 		err := tp.Deliver(bg, payload, mustURL(to))
 		e.r.Eval(1)
 		cas := map[string]interface{}{"op": "Deliver", "to": to, "status": code}
@@ -589,6 +603,12 @@ func runBatch(e *env, recipients []string, plan map[string]int, tag string) {
 		payload = []byte(fmt.Sprintf(`{"type":"Note","id":"https://local.example/n/%s","content":"héllo 世界 😀"}`, tag))
 	case 2:
 		payload = []byte(fmt.Sprintf(`{"type":"Note","id":"https://local.example/n/%s","content":"%s"}`, tag, strings.Repeat("x", 70000)))
+	case 3:
+		if len(recipients)%3 == 0 {
+			payload = []byte{} // the empty payload is a payload too
+		} else if len(recipients)%3 == 1 {
+			payload = nil
+		}
 	}
 	cl := &recClient{plan: plan, deflt: 200, yield: true}
 	ps := &recSigner{failURL: map[string]bool{}}
